@@ -86,6 +86,11 @@ CHECKS["C09"] = dict(engine="text-index",
   text="TLC checks that the incrementally maintained statistics equal the from-scratch ones in every state reachable by add / overwrite / delete / re-add / snapshot / restart (log, snapshot, snapshot+log) / compaction / compression within 3 documents x 4 terms x tf <= 2. Each history is executed on the real engine: result set = Candidates(q) for all 15 term subsets, each score = BM25(k1 1.2, b 0.75, Lucene idf) evaluated by the harness from the spec's integers within 1e-9, non-increasing order; alpha = 1 => exact vector order, alpha = 0 => text order, text-only => text order cut at k, alpha = 0.5 => alpha/(1+d) + (1-alpha)*bm25/max within 1e-9.",
   note="The real-valued formulas are evaluated outside TLA+ (TLC has no reals): the spec decides the integers, the candidate sets, the vector order and the order constraints. Queries are term sets; one text field; 3 documents on an integer lattice. alpha = 0.5 is compared with the formula only for k >= live documents. The stemmers themselves are out of the oracle (C20). Sequential restarts only. Built by a sub-agent.", ref="6 C09")
 
+CHECKS["C08"] = dict(engine="filter",
+  technique="TLC on Filter.tla: declarative Eval of the documented filter grammar over the meaning (truth/live) vs transcriptions of AddMetadata / AddMetadataUnlocked / removeOldIndexEntries / DeleteMetadata / LoadFromSnapshot / replayAOF aggregation / RewriteAOF / Compress / Vacuum and of evaluateBooleanFilter/FindIDsByFilter/VFilter; Inv_IndexAgrees over every history of the bound (all histories <=4 ops on one key x 6 value types, one history per state <=4-5 ops for 9 value types, 3 ids and 2 keys) and over seeded 20-op histories; TLC emits for every state the result set of every filter of a 12-clause basis + all AND/OR pairs + seeded larger expressions; every history is replayed on a real engine (snapshot restore, log replay, rewrite, compress) and every filter, rendered with seeded spacing/case/quoting/order, is sent to VFilter (set equality) and VSearch (subset).",
+  text="Design level: for every reachable state of the bound, FromIndexes(f) = {live id : Eval(meta,f)} for 168 filters (history independence), plus index = image of primary metadata. Code level: every replayed engine state x every basis filter judged against the spec's sets.",
+  note="Bound: <=3 ids, 2 keys, values {2 strings, 2 numbers, true/false, 4 lists, absent}; JSON types only (float64/[]any; Go-native ints passed through the embedded API are stored but not indexed live - listed as an assumption); OR-of-ANDs grammar without CONTAINS/parentheses; numeric-/boolean-looking strings excluded as ambiguous; small index; VSearch only subset. The spec keeps a second, 'pinned' transcription (invd) of the defect fixed as KF-C08-1 so a return of exactly that defect is recognised. Built by a sub-agent.", ref="6 C08")
+
 NOT_YET = {}
 
 def main():
@@ -122,6 +127,7 @@ def main():
             {"name": "text-rag", "path": "spec/Split.tla + spec/Compress.tla + spec/Adaptive.tla + tools/check_C20.py + harness/cmd/c20", "serves_properties": ["C20"], "kind_free_text": "TLA+ transcriptions of splitter/compressor/retriever, every case executed on the real code"},
             {"name": "vsearch", "path": "spec/Search.tla + spec/SearchLayer.tla + spec/Trace_Search.tla + tools/search_checks.py + harness/cmd/vsearch", "serves_properties": ["C06", "C07"], "kind_free_text": "TLA+ search oracle (admissible sets, exact top-k), histories replayed on the real engine, recall traces validated by TLC"},
             {"name": "text-index", "path": "spec/TextIdx.tla + spec/Trace_TextIdx.tla + tools/check_C09.py + harness/cmd/vtext", "serves_properties": ["C09"], "kind_free_text": "TLA+ text index (incremental vs from-scratch statistics, restart rebuilds), histories replayed on the real engine with BM25/fusion judged"},
+            {"name": "filter", "path": "spec/Filter.tla + tools/check_C08.py + harness/cmd/vfilter", "serves_properties": ["C08"], "kind_free_text": "TLA+ filter semantics vs transcribed secondary indexes; histories replayed on the real engine, every basis filter judged"},
             {"name": "decay", "path": "spec/Decay.tla + tools/check_C15.py + harness/cmd/c15decay", "serves_properties": ["C15"], "kind_free_text": "TLA+ case analysis, one implementation test per TLC state"},
             {"name": "http-conformance", "path": "spec/Http.tla + tools/check_C19.py + harness/cmd/vhttp", "serves_properties": ["C19"], "kind_free_text": "TLA+ request/FS model, cases replayed on the real server"},
             {"name": "kektor-engine", "path": "spec/Kektor.tla + tools/engine_checks.py + harness/internal/eng", "serves_properties": ["C01", "C02", "C04", "C05", "C10", "C12"],
